@@ -1,6 +1,7 @@
 #![allow(static_mut_refs)]
 #![allow(dead_code)]
 mod compx;
+mod corruptx;
 mod crashx;
 mod faultx;
 mod props_comp;
@@ -154,6 +155,7 @@ fn dispatch(id: &str, tier: &str) {
         "C09" => props_seq::c09(tier),
         "C10" => props_seq::c10(tier),
         "C12" => props_comp::c12(tier),
+        "C15" => props_crash::c15(tier),
         "C16" => props_crash::c16(tier),
         "C11" => props_seq::c11(tier),
         _ => usage(),
